@@ -109,6 +109,18 @@ CHECKS = {
             'model==0 with data>0 (documented as ignored with a warning) is outside the space; spectra follow the corner-masked convention; '
             'tolerance 1e-11 relative to the magnitude of the terms.',
             'DESIGN.md §3 C11'),
+    'C12': ('model_checking',
+            'monitored exhaustive product optimiser x model x every proper fixed-parameter subset x starting-point lattice x bound box x multinom, with every model evaluation recorded as a transition; exhaustive subsets for parameter projection; enumerated environment answers for perturb_params',
+            'Each of the 11 optimiser entry points is run on closed-form models for every proper subset of fixed parameters, starting points on '
+            '{near-lower, middle, near-upper}^k, three bound boxes (optimum inside, beyond the upper bounds, beyond an upper bound of exactly 0) and '
+            'multinom on/off, through a wrapper that records every model evaluation: the first evaluation is the start, every evaluation lies in the '
+            'box with fixed entries bit-identical, the returned vector lies in the box with fixed entries unchanged, its independently recomputed '
+            'likelihood equals the reported optimum and (for opt) is not below the start or the best evaluated point. _project_params_up/_down are '
+            'checked on all fixed-subsets for k<=5, perturb_params on a bounds lattice (negative, zero, None) with the uniform draw replaced by '
+            'every extreme answer.',
+            '1e-12 relative slack on bounds for log-space and NLopt optimisers (1-ulp excursions from exp(log(b)) / internal rescaling); NLopt '
+            'RoundoffLimited is reported as documented (-inf, nan) and counted; small iteration budgets; quick tier k<=3.',
+            'DESIGN.md §3 C12'),
     'C14': ('model_checking',
             'exhaustive enumeration of a format lattice (shape x position x value alphabet x precision x gz; masks x labels x comments x format flags x folding; memory layouts; pickle protocols) with real write+read round trips',
             'Every member of the lattice is written with the real writer and read back with the real reader (and the cross pairs: generic array '
